@@ -264,24 +264,30 @@ def r_vector_encoding(ctx):
             for c in g.calls():
                 vals.append(c.callee + ' | ' + c.resolved)
         return f, vals
+    W, R = 'write', 'read'
     checks = [
-        ('<f32 as unaligned_vector::UnalignedVectorCodec>::from_vec', ['to_ne_bytes'], ['to_be_bytes', 'to_le_bytes'], 'f32 elements written native-endian'),
-        ('<f32 as unaligned_vector::UnalignedVectorCodec>::iter', ['read_f32'], ['BigEndian', 'from_be_bytes'], 'f32 elements read native-endian'),
-        ('<f32 as unaligned_vector::UnalignedVectorCodec>::from_slice', ['cast_slice'], ['to_be_bytes', 'to_le_bytes'], 'f32 slice reinterpreted in place (native)'),
-        ("node::ItemIds::<'a>::from_slice", ['cast_slice'], ['to_be_bytes', 'to_le_bytes'], 'root ids written native-endian'),
-        ("node::ItemIds::<'a>::iter", ['read_u32'], ['BigEndian', 'from_be_bytes'], 'root ids read native-endian'),
-        ('unaligned_vector::binary_quantized::from_slice_non_optimized', ['to_ne_bytes'], ['to_be_bytes', 'to_le_bytes'], 'quantised words written native-endian'),
-        ('<unaligned_vector::binary_quantized::BinaryQuantizedIterator<\'_> as std::iter::Iterator>::next', ['from_ne_bytes'], ['from_be_bytes', 'from_le_bytes'], 'quantised words read native-endian'),
+        ('<f32 as unaligned_vector::UnalignedVectorCodec>::from_vec', W, 'f32 elements written native-endian'),
+        ('<f32 as unaligned_vector::UnalignedVectorCodec>::iter', R, 'f32 elements read native-endian'),
+        ('<f32 as unaligned_vector::UnalignedVectorCodec>::from_slice', W, 'f32 slice reinterpreted in place (native)'),
+        ("node::ItemIds::<'a>::from_slice", W, 'root ids written native-endian'),
+        ("node::ItemIds::<'a>::iter", R, 'root ids read native-endian'),
+        ('unaligned_vector::binary_quantized::from_slice_non_optimized', W, 'quantised words written native-endian'),
+        ('<unaligned_vector::binary_quantized::BinaryQuantizedIterator<\'_> as std::iter::Iterator>::next', R, 'quantised words read native-endian'),
     ]
-    for path, need, forbid, why in checks:
+    # native-endian idioms (any one of them), and the conversions that would fix another byte order
+    NATIVE = {W: ('to_ne_bytes', 'bytemuck::cast_slice', 'bytemuck::bytes_of', 'bytemuck::must_cast_slice'),
+              R: ('from_ne_bytes', 'bytemuck::cast_slice', 'bytemuck::pod_read_unaligned', 'bytemuck::pod_collect_to_vec', 'bytemuck::must_cast_slice')}
+    FOREIGN = ('to_be_bytes', 'to_le_bytes', 'from_be_bytes', 'from_le_bytes', 'BigEndian', 'swap_bytes', 'to_be(', 'to_le(', 'from_be(', 'from_le(')
+    for path, kind, why in checks:
         f, vals = fnvals(path)
         if not ctx.need(f is not None, rule, path):
             continue
         txt = ' ; '.join(vals)
-        good = all(n in txt for n in need) and not any(x in txt for x in forbid)
-        if 'read_f32' in need or 'read_u32' in need:
+        native = any(n in txt for n in NATIVE[kind])
+        if kind == R and ('ByteOrder::read_f32' in txt or 'ByteOrder::read_u32' in txt or 'ByteOrder::read_u64' in txt):
             # the ByteOrder instance: LittleEndian == NativeEndian on this (little-endian) host
-            good = good and 'LittleEndian' in txt
+            native = 'LittleEndian' in txt
+        good = native and not any(x in txt for x in FOREIGN)
         ctx.check(good, rule, path.split('::')[-2][-30:] + '::' + path.split('::')[-1], f.loc(), why,
                   '`%s`: %s no longer holds (uses: %s)' % (path, why, [v for v in vals if any(k in v for k in ('bytes', 'read_', 'cast_slice', 'Endian'))][:6]))
 
